@@ -397,6 +397,39 @@ def build_row(name, method, gjtag, c1, c2, sig, ops, un_txt, meths, consts, shap
     return "(JOpaque %s)" % q(method), "method"
 
 
+def bint_literal_params(src):
+    """genjava.c:gj0BInt + javacode.c:jcLiteralInteger -> (max bintLength for the valueOf form, bits of the printf
+    conversion, shape still as modelled?)"""
+    gj = strip_comments(open(os.path.join(src, "java", "genjava.c"), errors="replace").read())
+    jc = strip_comments(open(os.path.join(src, "java", "javacode.c"), errors="replace").read())
+    body = fn_text(gj, "gj0BInt")
+    maxlen, shape = 10 ** 6, True
+    conds = re.findall(r"if\s*\(([^{};]*bintIsSmall\s*\(\s*val\s*\)[^{};]*)\)\s*\{", body)
+    if len(conds) == 1:
+        c = conds[0]
+        m = re.search(r"bintLength\s*\(\s*val\s*\)\s*(<=|<)\s*(\d+)", c)
+        rest = re.sub(r"bintLength\s*\(\s*val\s*\)\s*(<=|<)\s*\d+|bintIsSmall\s*\(\s*val\s*\)|&&|\s", "", c)
+        if m and rest == "":
+            maxlen = int(m.group(2)) - (1 if m.group(1) == "<" else 0)
+        else:
+            shape = False
+    else:
+        shape = False
+    for pat in (r"if\s*\(\s*bintIsZero\s*\(\s*val\s*\)\s*\)\s*return\s+jcMemRef\s*\([^;]*\"ZERO\"",
+                r"long\s+smallval\s*=\s*bintSmall\s*\(\s*val\s*\)\s*;",
+                r"if\s*\(\s*smallval\s*==\s*1\s*\)\s*\{\s*return\s+jcMemRef\s*\([^;]*\"ONE\"",
+                r"\"valueOf\"\s*\)\s*\)\s*,\s*1\s*,\s*jcLiteralInteger\s*\(\s*smallval\s*\)",
+                r"jcConstructV\s*\(\s*gj0Id\s*\(\s*GJ_BigInteger\s*\)\s*,\s*1\s*,\s*jcLiteralString\s*\(\s*bintToString\s*\(\s*val\s*\)\s*\)\s*\)"):
+        if not re.search(pat, body, re.S):
+            shape = False
+    lit = fn_text(jc, "jcLiteralInteger")
+    m = re.search(r'strPrintf\s*\(\s*"(%l?d)"\s*,\s*i\s*\)', lit)
+    bits = {"%d": 32, "%ld": 64}.get(m.group(1) if m else None, 0)
+    if not re.search(r"jcLiteralInteger\s*\(\s*AInt\s+i\s*\)", jc):
+        bits = 0
+    return maxlen, bits, shape
+
+
 def translate(repo_aldor_src, repo_aldor):
     src = repo_aldor_src
     gj = strip_comments(open(os.path.join(src, "java", "genjava.c"), errors="replace").read())
@@ -426,7 +459,7 @@ def translate(repo_aldor_src, repo_aldor):
         rows.append({"name": name, "args": sig[name][0], "ret": sig[name][1], "exp": exp, "why": why, "method": method,
                      "c1": c1, "c2": c2, "tag": gjtag})
     # the table is indexed by tag: its order must be the enumeration's (gj0BCallBValInfo asserts it)
-    return {"rows": rows, "sig": sig, "shapes_ok": shapes_ok, "n_math_methods": len(meths)}
+    return {"rows": rows, "sig": sig, "shapes_ok": shapes_ok, "n_math_methods": len(meths), "bint": bint_literal_params(src)}
 
 
 def is_translated(r):
@@ -450,6 +483,11 @@ def emit_coq(tr, known_bad):
     w("")
     w("(* rows listed in known_findings.json (property C12, keys java:<Builtin>) *)")
     w("Definition known_bad_java : list string := [%s]." % "; ".join(q(n) for n in sorted(known_bad)))
+    w("")
+    ml, bits, shape = tr["bint"]
+    w("(* genjava.c:gj0BInt / javacode.c:jcLiteralInteger: largest bintLength written as BigInteger.valueOf(<int literal>),")
+    w("   width of the printf conversion of the literal, gj0BInt still of the modelled shape *)")
+    w("Definition java_bint_params : bint_params := mkbp (%d) (%d) %s." % (ml, bits, "true" if shape else "false"))
     w("")
     w("(* every builtin of foam.c:foamBValInfoTable, in order *)")
     w("Definition java_bval_names : list string := [%s]." % "; ".join(q(n) for n in tr["sig"]))
